@@ -36,6 +36,19 @@ file, so the equivalence theorem no longer compiles and the check reports a brok
               one loop statement), `skip` (statements whose effect is supplied as parameters), `attrs` (attribute / item
               chains that are parameters), `state` (what the method leaves in `self`, returned beside the value)
 
+  objects     (entries with `token_class`: the Tokenizer / Token classes of tokenizer.py)  `self.X` of a Tokenizer as parameter /
+              state variable (`state_attrs`), `self.m()` of another translated method with the attributes threaded through (the
+              callee's `state` rebinds the caller's variables; a method that starts changing an attribute its entry does not return
+              is untranslatable), `X.append(v)`, `del X[:]`, `X.pop()`; `Token(v, T[, S])` / `cls(…)` as the structure Tokenizer.Tok,
+              `t.value / .type / .subtype`, `Token.NAME` / `cls.NAME` / `self.NAME` as enum members (law read from the live class:
+              `token_law`), classmethods and `<token>.get_closer()` as calls of translated functions; `x in "…"` (substring),
+              `x in (a, b, …)`, `s.startswith(p)` / `s.endswith(p)`, `a and b and …` / `or` as a test with operands that can raise
+              (evaluated only when reached), `if m is None: <raise>` narrowing, `try: <assignments> / except <Class>: … / else: …`
+              (a match on the PyM outcome), the dispatch-dict idiom of `Tokenizer.parse` (`find_dispatch`: the dict is the list of
+              its (chars, method) pairs, PyT.dispatchFind), `tables` (a class-level dict of third-party objects looked up by
+              key), externs whose law is for a literal argument (compared at translation time), `live_laws` (facts about the
+              live module an extern rests on, checked at translation time), `for` loops that return with state
+
 Every construct is translated to the operation of Py/Trans.lean / Py/Basic.lean that states its Python
 meaning; everything that can raise lives in `PyM = Except PyExc`.
 """
@@ -75,6 +88,14 @@ def lean_type(t) -> str:
         return "PyT.Key"
     if t == "bytes":
         return "Bytes"
+    if t == "tok":      # a `Token` object: the structure (value, type, subtype) of Model/Tokenizer.lean
+        return "Tokenizer.Tok"
+    if t == "ttype":    # one of the `Token` type constants (Token.OPERAND, Token.FUNC, …)
+        return "Tokenizer.TType"
+    if t == "subt":     # one of the `Token` subtype constants (Token.OPEN, …) or the default ""
+        return "Tokenizer.SubT"
+    if t == "match0":   # a successful regex match of which only group(0) is used: the matched text
+        return "Text"
     if isinstance(t, tuple) and t[0] == "var":  # a type variable of the entry (values the code only passes around)
         return t[1]
     if isinstance(t, tuple) and t[0] == "dict":  # dict[str, V] in insertion order
@@ -123,6 +144,30 @@ EXC = {"IndexError": ".IndexError", "KeyError": ".KeyError", "ValueError": ".Val
        "RuntimeError": ".RuntimeError", "AttributeError": ".AttributeError", "TokenizerError": ".TokenizerError"}
 
 
+# the class constants of `tokenizer.Token` (entries with `token_class`): a `Token` is the structure Tokenizer.Tok of
+# Model/Tokenizer.lean, its `type` / `subtype` strings are the enum members of the same name.  The law this needs — the
+# constants are pairwise distinct strings, `Token.__init__` stores its three arguments and defaults `subtype` to "" — is read
+# from the live class on every run (`token_law`); if it fails the entries are untranslatable.
+TOKEN_CONSTS = {**{n: (f"Tokenizer.TType.{n}", "ttype") for n in
+                   ("OPERAND", "FUNC", "ARRAY", "PAREN", "SEP", "OP_PRE", "OP_IN", "OP_POST")},
+                **{n: (f"Tokenizer.SubT.{n}", "subt") for n in ("TEXT", "ERROR", "LOGICAL", "OPEN", "CLOSE", "ARG", "ROW")}}
+TOKEN_INIT = ("def __init__(self, value, type_, subtype=''):\n    self.value = value\n    self.type = type_\n"
+              "    self.subtype = subtype\n    self.num_args = 0")
+
+
+def token_law(module: str) -> None:
+    import importlib
+    mod = importlib.import_module(module)
+    Token = mod.Token
+    for kind in ("ttype", "subt"):
+        vals = [getattr(Token, n, None) for n, (_, k) in TOKEN_CONSTS.items() if k == kind] + ([""] if kind == "subt" else [])
+        if any(not isinstance(v, str) for v in vals) or len(set(vals)) != len(vals):
+            raise Unsupported(f"the Token {kind} constants are no longer pairwise distinct strings")
+    init = find_def(module, "Token.__init__")
+    if ast.unparse(init) != TOKEN_INIT:
+        raise Unsupported("Token.__init__ is no longer the plain constructor (value, type_, subtype='')")
+
+
 def exc_code(node) -> str:
     name = None
     if isinstance(node, ast.Call) and isinstance(node.func, ast.Name):
@@ -147,6 +192,7 @@ class Fn:
         self.nloop = 0
         self.ret = spec["ret"]
         self.tmp = 0
+        self.dispatch: dict[str, list[tuple[str, str]]] = {}   # dict built from (chars, self.method) pairs → the pairs
 
     # -- helpers --------------------------------------------------------------------------
     def fresh(self) -> str:
@@ -207,9 +253,14 @@ class Fn:
             mc = self.module_const(e)
             if mc is not None:
                 return mc
+            if self.spec.get("token_class") and isinstance(e.value, ast.Name) and e.attr in TOKEN_CONSTS \
+                    and (e.value.id in ("Token", "cls") or (e.value.id == "self" and env.get("self") == "tok")):
+                return TOKEN_CONSTS[e.attr]      # Token.OP_IN, cls.CLOSE, self.FUNC: the enum member of that name
             base, bt = self.expr(e.value, env, pre)
             if bt == "item" and e.attr == "name":
                 return f"{base}.name", "str"
+            if bt == "tok" and e.attr in ("value", "type", "subtype"):
+                return f"{base}.{e.attr}", {"value": "str", "type": "ttype", "subtype": "subt"}[e.attr]
             raise Unsupported(f"attribute {src}")
         if isinstance(e, ast.Tuple):
             parts = [self.expr(x, env, pre) for x in e.elts]
@@ -252,6 +303,20 @@ class Fn:
             left, lt = self.expr(e.left, env, pre)
             out = []
             for op, right in zip(e.ops, e.comparators):
+                if isinstance(op, (ast.In, ast.NotIn)) and isinstance(right, ast.Tuple) and right.elts and len(e.ops) == 1:
+                    # x in (a, b, …): equal to one of the elements
+                    parts = [self.expr(x, env, pre) for x in right.elts]
+                    if any(p[1] != lt for p in parts) or lt not in ("str", "int", "ttype", "subt"):
+                        raise Unsupported("membership in a tuple of another type")
+                    c = "(List.contains [" + ", ".join(p[0] for p in parts) + f"] {left})"
+                    return (c if isinstance(op, ast.In) else f"(!{c})"), "bool"
+                if isinstance(op, (ast.In, ast.NotIn)) and isinstance(right, ast.Name) and right.id in self.dispatch \
+                        and len(e.ops) == 1:
+                    # key in dispatcher (a dict built from (chars, method) pairs with dict.fromkeys)
+                    if lt != "str":
+                        raise Unsupported("dispatch key of type " + str(lt))
+                    c = f"(PyT.dispatchFind {self.dispatch_table(right.id)} {left}).isSome"
+                    return (c if isinstance(op, ast.In) else f"(!{c})"), "bool"
                 rc, rt = self.expr(right, env, pre)
                 out.append(self.compare(op, left, lt, rc, rt))
                 left, lt = rc, rt
@@ -360,6 +425,15 @@ class Fn:
                 pre.append(f"  : PyM {lean_type(bt2)}))")
                 return v, ("list", bt2)
             return f"(({lst}).map (fun ({lname(g.target.id)} : {lean_type(et)}) => {body}))", ("list", bt2)
+        if isinstance(e, ast.Subscript) and ast.unparse(e.value) in self.spec.get("tables", {}):
+            # a class-level table of third-party objects (compiled regexes) looked up by key: the named Lean function
+            lean_fn, kt, rett = self.spec["tables"][ast.unparse(e.value)]
+            k, kt2 = self.expr(e.slice, env, pre)
+            if kt2 != kt:
+                raise Unsupported("table key of type " + str(kt2))
+            v = self.fresh()
+            pre.append(f"let {v} ← {lean_fn} {k}")
+            return v, rett
         if isinstance(e, ast.Subscript):
             base, bt = self.expr(e.value, env, pre)
             if isinstance(e.slice, ast.Slice):
@@ -413,6 +487,9 @@ class Fn:
         if isinstance(op, (ast.In, ast.NotIn)) and isinstance(bt, tuple) and bt[0] == "dict" and at == "str":
             c = f"(PyT.dictContains {b} {a})"
             return c if isinstance(op, ast.In) else f"(!{c})"
+        if isinstance(op, (ast.In, ast.NotIn)) and at == "str" and bt == "str":
+            c = f"(PyT.strIn {a} {b})"      # substring test
+            return c if isinstance(op, ast.In) else f"(!{c})"
         if isinstance(op, (ast.Is, ast.IsNot)):
             if bt == "none" and isinstance(at, tuple) and at[0] == "opt":
                 return f"({a}).isNone" if isinstance(op, ast.Is) else f"({a}).isSome"
@@ -449,6 +526,33 @@ class Fn:
         """Python truth value of an expression used as a test → Lean Bool."""
         if isinstance(e, ast.UnaryOp) and isinstance(e.op, ast.Not):
             return f"(!{self.truthy(e.operand, env, pre)})"
+        if isinstance(e, ast.BoolOp) and self.spec.get("token_class"):
+            # truth value of `a and b and …` / `a or b or …` used as a test: the operands' truth values, left to right; an
+            # operand that can raise is evaluated only when the ones before it did not decide the outcome
+            parts = []
+            for v in e.values:
+                sub: list[str] = []
+                parts.append((self.truthy(v, env, sub), sub))
+            pre.extend(parts[0][1])
+            if not any(sub for _, sub in parts[1:]):
+                return "(" + (" && " if isinstance(e.op, ast.And) else " || ").join(c for c, _ in parts) + ")"
+            is_and = isinstance(e.op, ast.And)
+
+            def build(i) -> list[str]:
+                c, sub = parts[i]
+                lines = list(sub) if i > 0 else []
+                if i == len(parts) - 1:
+                    return lines + [f"pure {c}"]
+                inner = self.ind(self.ind(build(i + 1)))
+                if is_and:
+                    return lines + [f"if {c} then (do"] + inner + ["  ) else pure false"]
+                return lines + [f"if {c} then pure true else (do"] + inner + ["  )"]
+            v = self.fresh()
+            body = build(0)
+            pre.append(f"let {v} : Bool ← (do")
+            pre.extend(self.ind(self.ind(body)))
+            pre.append("  )")
+            return v
         c, t = self.expr(e, env, pre)
         if t == "bool":
             return c
@@ -464,6 +568,9 @@ class Fn:
 
     def binop(self, e, env, pre):
         a, at = self.expr(e.left, env, pre)
+        if set(self.effects(e.right)) & self.loads([e.left]):
+            # the left operand is read before the call on the right rebinds it: the hoisted call would come first
+            raise Unsupported("operand read before a call that changes it")
         b, bt = self.expr(e.right, env, pre)
         op = type(e.op)
         if at == "str" and bt == "str" and op is ast.Add:
@@ -494,18 +601,27 @@ class Fn:
         externs = self.spec.get("externs", {})
         if src in externs:
             lean_fn, argtypes, rett, monadic, *keep = externs[src]
+            if len(keep) > 1:
+                # the recorded law of the extern is for these literal arguments (a regex pattern): anything else is another function
+                for pos, lit in keep[1].items():
+                    if not (pos < len(e.args) and isinstance(e.args[pos], ast.Constant) and e.args[pos].value == lit):
+                        raise Unsupported(f"{src} is no longer called with the literal {lit!r} its hand-modelled scanner is for")
             # optional 5th component: the positions of the Python arguments that are passed on (an argument that only
             # stands for "the value the third-party function is about", e.g. the datetime, is dropped)
             # `*xs` passes the list xs; `**kwargs` of a wrapper is taken to be empty (named in the entry's `assume`)
             actual = [a.value if isinstance(a, ast.Starred) else a for a in e.args] + \
                 [k.value for k in e.keywords if k.arg is not None]
-            args = [self.expr(a, env, pre)[0] for i, a in enumerate(actual) if not keep or i in keep[0]]
+            args = [self.expr(a, env, pre)[0] for i, a in enumerate(actual) if not keep or keep[0] is None or i in keep[0]]
             code = f"({lean_fn} " + " ".join(args) + ")" if args else lean_fn
             if monadic:
                 v = self.fresh()
                 pre.append(f"let {v} ← {code}")
                 return v, rett
             return code, rett
+        if self.spec.get("token_class"):
+            r = self.token_call(e, env, pre)
+            if r is not None:
+                return r
         if isinstance(f, ast.Attribute) and f.attr == "join" and isinstance(f.value, ast.Constant) and len(e.args) == 1:
             c, t = self.expr(e.args[0], env, pre)
             if t != ("list", "str"):
@@ -613,25 +729,189 @@ class Fn:
             b, _ = self.expr(e.args[1], env, pre)
             return f"(PyT.{fn}I {a} {b})", "int"
         if fn in self.registry:
-            callee = self.registry[fn]
-            names = [p[0] for p in callee["params"]]
-            given: dict[str, str] = {}
-            for n, a in zip(names, e.args):
-                given[n] = self.expr(a, env, pre)[0]
-            for kw in e.keywords:
-                given[kw.arg] = self.expr(kw.value, env, pre)[0]
-            args = []
-            for n, t, *dflt in callee["params"]:
-                if n in given:
-                    args.append(given[n])
-                elif dflt:
-                    args.append(dflt[0])
-                else:
-                    raise Unsupported(f"missing argument {n} in call of {fn}")
-            v = self.fresh()
-            pre.append(f"let {v} ← {callee['lean']} " + " ".join(args))
-            return v, callee["ret"]
+            return self.plain_call(self.registry[fn], e, env, pre)
         raise Unsupported(f"call of {fn}")
+
+    def plain_call(self, callee, e, env, pre, first: list[str] = ()):
+        """call of another translated function: positional / keyword / default arguments (`first`: the receiver)"""
+        names = [p[0] for p in callee["params"]]
+        given: dict[str, str] = {}
+        for n, a in zip(names, list(first)):
+            given[n] = a
+        for n, a in zip(names[len(first):], e.args):
+            given[n] = self.expr(a, env, pre)[0]
+        for kw in e.keywords:
+            given[kw.arg] = self.expr(kw.value, env, pre)[0]
+        if len(e.args) + len(first) > len(names) or any(k not in names for k in given):
+            raise Unsupported(f"arguments of {callee['lean']}")
+        args = []
+        for n, t, *dflt in callee["params"]:
+            if n in given:
+                args.append(given[n])
+            elif dflt:
+                args.append(dflt[0])
+            else:
+                raise Unsupported(f"missing argument {n} in call of {callee['lean']}")
+        v = self.fresh()
+        pre.append(f"let {v} ← {callee['lean']} " + " ".join(args))
+        return v, callee["ret"]
+
+    # -- `Tokenizer` / `Token` (entries with `token_class`) ---------------------------------------------
+    def state_callee(self, f):
+        """`self.m` where `m` is another translated method of the same object → its entry"""
+        if isinstance(f, ast.Attribute) and isinstance(f.value, ast.Name) and f.value.id == "self" \
+                and self.spec.get("state_attrs") and f.attr in self.registry and self.registry[f.attr].get("state_attrs") is not None \
+                and not self.registry[f.attr].get("classmethod") and "self" not in [p[0] for p in self.spec["params"]]:
+            return self.registry[f.attr]
+        return None
+
+    def state_call_names(self, callee):
+        """(arguments, rebound caller variables) of a call `self.m()`: the callee's parameters that stand for attributes of
+        `self` are the caller's variables for the same attributes"""
+        mine = self.spec["state_attrs"]
+        theirs = {v: k for k, v in callee["state_attrs"].items()}   # callee parameter -> attribute
+        args = []
+        for n, *_ in callee["params"]:
+            if n not in theirs:
+                raise Unsupported(f"{callee['lean']} takes the argument {n} that is not an attribute of self")
+            if theirs[n] not in mine:
+                raise Unsupported(f"{callee['lean']} reads {theirs[n]}, which the caller does not carry")
+            args.append(mine[theirs[n]])
+        rebound = [mine[theirs[v]] for v in callee.get("state", ())]
+        return args, rebound
+
+    def effects(self, node) -> list[str]:
+        """caller variables rebound by evaluating the expression / statement (calls of state methods, dispatch calls, pop)"""
+        out: list[str] = []
+        if not self.spec.get("token_class"):
+            return out
+        for n in ast.walk(node):
+            if not isinstance(n, ast.Call):
+                continue
+            callee = self.state_callee(n.func)
+            names: list[str] = []
+            if callee is not None:
+                names = self.state_call_names(callee)[1]
+            elif isinstance(n.func, ast.Subscript) and isinstance(n.func.value, ast.Name) and n.func.value.id in self.dispatch:
+                for _, m in self.dispatch[n.func.value.id]:
+                    names += self.state_call_names(self.registry[m])[1]
+            elif isinstance(n.func, ast.Attribute) and n.func.attr == "pop" and isinstance(n.func.value, ast.Name) and not n.args:
+                names = [n.func.value.id]
+            for x in names:
+                if x not in out:
+                    out.append(x)
+        return out
+
+    def implicit_loads(self, nodes) -> set[str]:
+        """caller variables read by state-method calls without being named in the text"""
+        out: set[str] = set()
+        if not self.spec.get("token_class"):
+            return out
+        for s in nodes:
+            for n in ast.walk(s):
+                if not isinstance(n, ast.Call):
+                    continue
+                callee = self.state_callee(n.func)
+                if callee is not None:
+                    out |= set(self.state_call_names(callee)[0])
+                elif isinstance(n.func, ast.Subscript) and isinstance(n.func.value, ast.Name) and n.func.value.id in self.dispatch:
+                    for _, m in self.dispatch[n.func.value.id]:
+                        out |= set(self.state_call_names(self.registry[m])[0])
+        return out
+
+    def dispatch_table(self, name) -> str:
+        return "[" + ", ".join(text_lit(chars) for chars, _ in self.dispatch[name]) + "]"
+
+    def emit_state_call(self, callee, env, pre) -> str:
+        args, rebound = self.state_call_names(callee)
+        for a in args:
+            if a not in env:
+                raise Unsupported(f"{a} is not bound at the call of {callee['lean']}")
+        v = self.fresh()
+        pat = "(" + ", ".join([v] + [lname(x) for x in rebound]) + ")" if rebound else v
+        pre.append(f"let {pat} ← {callee['lean']} " + " ".join(lname(a) for a in args))
+        return v
+
+    def token_call(self, e, env, pre):
+        f = e.func
+        # Token(value, type_[, subtype]) / cls(…): the structure
+        if isinstance(f, ast.Name) and f.id in ("Token", "cls") and not e.keywords and len(e.args) in (2, 3):
+            parts = [self.expr(a, env, pre) for a in e.args]
+            if [p[1] for p in parts] != ["str", "ttype", "subt"][:len(parts)]:
+                raise Unsupported("Token(…) with arguments of types " + str([p[1] for p in parts]))
+            sub = parts[2][0] if len(parts) == 3 else "Tokenizer.SubT.none"
+            return f"(Tokenizer.Tok.mk {parts[0][0]} {parts[1][0]} {sub})", "tok"
+        # self.m(): another translated method of the same object, the attributes threaded through
+        callee = self.state_callee(f)
+        if callee is not None:
+            if e.args or e.keywords:
+                raise Unsupported("state method called with arguments")
+            return self.emit_state_call(callee, env, pre), callee["ret"]
+        # dispatcher[key](): the method the key selects
+        if isinstance(f, ast.Subscript) and isinstance(f.value, ast.Name) and f.value.id in self.dispatch and not e.args \
+                and not e.keywords:
+            k, kt = self.expr(f.slice, env, pre)
+            if kt != "str":
+                raise Unsupported("dispatch key of type " + str(kt))
+            table = self.dispatch[f.value.id]
+            rets = {self.registry[m]["ret"] for _, m in table}
+            if len(rets) != 1:
+                raise Unsupported("dispatched methods of different result types")
+            union = self.effects(e)
+            # the selection is its own definition (`<fn>.dispatchN`), so that it can be reasoned about apart from the loop
+            self.ndispatch = getattr(self, "ndispatch", 0) + 1
+            dname = f"{self.name}.dispatch{self.ndispatch}"
+            argnames: list[str] = []
+            for _, m in table:
+                for a in self.state_call_names(self.registry[m])[0]:
+                    if a not in argnames:
+                        argnames.append(a)
+            for a in argnames + union:
+                if a not in env:
+                    raise Unsupported(f"{a} is not bound at the dispatch call")
+            argnames += [x for x in union if x not in argnames]
+            rty = lean_type(("tuple", [next(iter(rets))] + [env[x] for x in union])) if union else lean_type(next(iter(rets)))
+            lines = [f"def {dname} " + " ".join(f"({lname(a)} : {lean_type(env[a])})" for a in argnames) +
+                     f" (key : Text) : PyM {rty} :=",
+                     f"  match PyT.dispatchFind {self.dispatch_table(f.value.id)} key with"]
+            for i, (_, m) in enumerate(table):
+                sub: list[str] = []
+                r = self.emit_state_call(self.registry[m], env, sub)
+                tup = "(" + ", ".join([r] + [lname(x) for x in union]) + ")" if union else r
+                lines += [f"  | some {i} => (do"] + self.ind(self.ind(sub + [f"pure {tup}"])) + ["    )"]
+            lines.append("  | _ => throw .KeyError")
+            self.aux.append("\n".join(lines))
+            v = self.fresh()
+            pat = "(" + ", ".join([v] + [lname(x) for x in union]) + ")" if union else v
+            pre.append(f"let {pat} ← {dname} " + " ".join(lname(a) for a in argnames) + f" {k}")
+            return v, rets.pop()
+        if isinstance(f, ast.Attribute):
+            # Token.make_subexp(…) / cls.make_subexp(…) / self.make_subexp(…) on a Token: a classmethod
+            if f.attr in self.registry and self.registry[f.attr].get("classmethod") and isinstance(f.value, ast.Name) \
+                    and (f.value.id in ("Token", "cls") or (f.value.id == "self" and env.get("self") == "tok")):
+                return self.plain_call(self.registry[f.attr], e, env, pre)
+            # x.pop() on a list variable: the last element, the variable rebound to the rest
+            if f.attr == "pop" and not e.args and isinstance(f.value, ast.Name) and isinstance(env.get(f.value.id), tuple) \
+                    and env[f.value.id][0] == "list":
+                v = self.fresh()
+                pre.append(f"let ({v}, {lname(f.value.id)}) ← pyPop {lname(f.value.id)}")
+                return v, env[f.value.id][1]
+            if f.attr == "group" and isinstance(f.value, ast.Name) and env.get(f.value.id) == "match0" and len(e.args) == 1 \
+                    and isinstance(e.args[0], ast.Constant) and e.args[0].value == 0:
+                return lname(f.value.id), "str"      # group(0): the matched text
+            if f.attr in ("startswith", "endswith") and len(e.args) == 1 and not e.keywords:
+                base, bt = self.expr(f.value, env, pre)
+                a, at = self.expr(e.args[0], env, pre)
+                if bt != "str" or at != "str":
+                    raise Unsupported(f"{f.attr} on {bt} with {at}")
+                return f"(PyT.{f.attr} {base} {a})", "bool"
+            # <token>.get_closer(): a translated method of Token
+            if f.attr in self.registry and self.registry[f.attr]["params"][:1] == [("self", "tok")] \
+                    and ast.unparse(f) not in self.spec.get("externs", {}):
+                base, bt = self.expr(f.value, env, pre)
+                if bt == "tok":
+                    return self.plain_call(self.registry[f.attr], e, env, pre, first=[base])
+        return None
 
     # -- statements -----------------------------------------------------------------------
     @staticmethod
@@ -672,6 +952,9 @@ class Fn:
                     tgt(n.target)
                 elif isinstance(n, ast.For):
                     tgt(n.target)
+            for x in self.effects(s):
+                if x not in out:
+                    out.append(x)
         return out
 
     @staticmethod
@@ -779,6 +1062,13 @@ class Fn:
             return self.while_stmt(s, env, cont, loop)
         if isinstance(s, ast.For):
             return self.for_stmt(s, env, cont, loop)
+        if isinstance(s, ast.Expr) and isinstance(s.value, ast.Call) and self.spec.get("token_class"):
+            # a call evaluated for its effect on the state variables (self.save_token(), self.assert_empty_token())
+            pre = []
+            self.expr(s.value, env, pre)
+            return pre + cont(env)
+        if isinstance(s, ast.Try) and self.spec.get("token_class"):
+            return self.try_stmt(s, env, cont, loop)
         raise Unsupported(type(s).__name__)
 
     @staticmethod
@@ -807,6 +1097,16 @@ class Fn:
                 and isinstance(env.get(t.operand.id), tuple) and env[t.operand.id][0] == "opt" \
                 and self.terminal(s.body) and not s.orelse:
             var = t.operand.id
+            env2 = dict(env)
+            env2[var] = env[var][1]
+            return [f"match {lname(var)} with", "| none =>"] + self.ind(self.block(s.body, env, None, loop)) + \
+                   [f"| some {lname(var)} =>"] + self.ind(cont(env2))
+        # Optional narrowing:  if m is None: <terminal>  →  match m with | none => … | some m => rest
+        if isinstance(t, ast.Compare) and len(t.ops) == 1 and isinstance(t.ops[0], ast.Is) and isinstance(t.left, ast.Name) \
+                and isinstance(t.comparators[0], ast.Constant) and t.comparators[0].value is None \
+                and isinstance(env.get(t.left.id), tuple) and env[t.left.id][0] == "opt" and not s.orelse \
+                and self.terminal(s.body):
+            var = t.left.id
             env2 = dict(env)
             env2[var] = env[var][1]
             return [f"match {lname(var)} with", "| none =>"] + self.ind(self.block(s.body, env, None, loop)) + \
@@ -842,6 +1142,10 @@ class Fn:
         if not self.has(s.body + s.orelse, ctl + (ast.While, ast.For)):
             # both branches fall through and only assign: join on the assigned variables
             mods = [m for m in self.assigned(s.body + s.orelse)]
+            if self.spec.get("token_class"):
+                # a name bound in one branch only (and not before) is out of scope after the statement: it is not joined, a
+                # later use is a free name
+                mods = self.defined_on_all_paths(mods, [s.body, s.orelse], [env, env], loop)
             envs = []
 
             def tail(e2):
@@ -849,6 +1153,8 @@ class Fn:
                 for m in mods:
                     if m not in e2:
                         raise Unsupported(f"{m} assigned in one branch only and not defined before")
+                if not mods:
+                    return ["pure ()"]
                 return ["pure (" + ", ".join(lname(m) for m in mods) + ")"] if len(mods) != 1 else [f"pure {lname(mods[0])}"]
             then_lines = self.block(s.body, env, tail, loop)
             else_lines = self.block(s.orelse, env, tail, loop)
@@ -861,15 +1167,83 @@ class Fn:
                 env2[m] = t1[m]
             pat = "(" + ", ".join(lname(m) for m in mods) + ")" if len(mods) != 1 else lname(mods[0])
             ty = lean_type(("tuple", [t1[m] for m in mods])) if len(mods) != 1 else lean_type(t1[mods[0]])
+            if not mods:
+                pat, ty = "()", "Unit"
             return pre + [f"let {pat} : {ty} ← (if {c} then (do"] + self.ind(self.ind(then_lines)) + ["  ) else (do"] + \
                    self.ind(self.ind(else_lines)) + ["  ))"] + cont(env2)
         # general case: duplicate the continuation
         return pre + [f"if {c} then"] + self.ind(self.block(s.body, env, cont, loop)) + ["else"] + \
                self.ind(self.block(s.orelse, env, cont, loop))
 
+    def defined_on_all_paths(self, mods, blocks, envs0, loop):
+        """those of `mods` that are bound at the end of every one of the blocks (a dry run of each block; counters restored)"""
+        saved = (self.tmp, list(self.aux), self.nloop, getattr(self, "nloop_for", 0), getattr(self, "ndispatch", 0))
+        ends = []
+
+        def probe(e2):
+            ends.append(e2)
+            return ["pure ()"]
+        for b, e0 in zip(blocks, envs0):
+            self.block(b, e0, probe, loop)
+        self.tmp, self.aux, self.nloop, self.nloop_for, self.ndispatch = saved
+        return [m for m in mods if all(m in e2 for e2 in ends)]
+
+    def try_stmt(self, s, env, cont, loop):
+        """try: <assignments> / except <Class>: H / else: E — the body's outcome is matched: ok → E (with the body's bindings),
+        the named exception → H, any other exception propagates.  (An exception raised inside E or H is not caught, as in
+        Python.)  The body may not touch state variables: a partial update before the exception would have to survive it."""
+        ctl = (ast.Return, ast.Raise, ast.Break, ast.Continue, ast.While, ast.For, ast.Try)
+        if s.finalbody or len(s.handlers) != 1 or s.handlers[0].name is not None \
+                or not isinstance(s.handlers[0].type, ast.Name) or s.handlers[0].type.id not in EXC:
+            raise Unsupported("try statement other than try / except <Class> / else")
+        if self.has(s.body + s.handlers[0].body + s.orelse, ctl) or \
+                not all(isinstance(x, ast.Assign) for x in s.body):
+            raise Unsupported("try statement with control flow in it")
+        bvars = self.assigned(s.body)
+        state_names = set(self.spec.get("state_attrs", {}).values())
+        if any(v in state_names for v in bvars) or any(v in env for v in bvars):
+            raise Unsupported("try body that rebinds a variable")
+        benv = {}
+
+        def btail(e2):
+            benv.update(e2)
+            return ["pure (" + ", ".join(lname(v) for v in bvars) + ")"] if len(bvars) != 1 else [f"pure {lname(bvars[0])}"]
+        body_lines = self.block(s.body, env, btail, loop)
+        bpat = "(" + ", ".join(lname(v) for v in bvars) + ")" if len(bvars) != 1 else lname(bvars[0])
+        bty = lean_type(("tuple", [benv[v] for v in bvars])) if len(bvars) != 1 else lean_type(benv[bvars[0]])
+        env_else = dict(env)
+        for v in bvars:
+            env_else[v] = benv[v]
+        handler = s.handlers[0].body
+        mods = [m for m in self.assigned(s.body + handler + s.orelse)]
+        mods = self.defined_on_all_paths(mods, [s.orelse, handler], [env_else, env], loop)
+        ends = []
+
+        def tail(e2):
+            ends.append(e2)
+            if not mods:
+                return ["pure ()"]
+            return ["pure (" + ", ".join(lname(m) for m in mods) + ")"] if len(mods) != 1 else [f"pure {lname(mods[0])}"]
+        else_lines = self.block(s.orelse, env_else, tail, loop)
+        handler_lines = self.block(handler, env, tail, loop)
+        for m in mods:
+            if ends[0][m] != ends[1][m]:
+                raise Unsupported(f"{m} has type {ends[0][m]} after the try body and {ends[1][m]} after the handler")
+        env2 = dict(env)
+        for m in mods:
+            env2[m] = ends[0][m]
+        pat = "(" + ", ".join(lname(m) for m in mods) + ")" if len(mods) != 1 else lname(mods[0])
+        ty = lean_type(("tuple", [ends[0][m] for m in mods])) if len(mods) != 1 else lean_type(ends[0][mods[0]])
+        if not mods:
+            pat, ty = "()", "Unit"
+        exc = EXC[s.handlers[0].type.id]
+        return [f"let {pat} : {ty} ← (match ((do"] + self.ind(self.ind(body_lines)) + [f"    ) : PyM {bty}) with",
+               f"  | .ok {bpat} => (do"] + self.ind(self.ind(else_lines)) + ["    )", f"  | .error {exc} => (do"] + \
+            self.ind(self.ind(handler_lines)) + ["    )", "  | .error e => throw e)"] + cont(env2)
+
     def loop_common(self, body_nodes, env, extra_bound=()):
         carried = [v for v in self.assigned(body_nodes) if v in env and v not in extra_bound]
-        used = self.loads(body_nodes)
+        used = self.loads(body_nodes) | self.implicit_loads(body_nodes)
         # parameters that stand for third-party functions are named by the externs / methods of the entry, not by the
         # Python text: they are always passed on
         fixed = [v for v in env if (v in used or (isinstance(env[v], tuple) and env[v][0] == "raw"))
@@ -882,7 +1256,9 @@ class Fn:
             tup = "()"
         cty = lean_type(("tuple", [env[v] for v in carried])) if len(carried) > 1 else \
             (lean_type(env[carried[0]]) if carried else "Unit")
-        rty = f"(Option {lean_type(self.ret)} × {cty})" if has_ret else cty
+        state = self.spec.get("state", ())
+        full = lean_type(("tuple", [self.ret] + [env[v] for v in state])) if state else lean_type(self.ret)
+        rty = f"(Option {full} × {cty})" if has_ret else cty
         return tup, cty, rty
 
     def after_loop(self, call, carried, env, has_ret, cont, loop):
@@ -988,8 +1364,9 @@ class Fn:
             "on_continue": lambda e2: rec,
         }
         body = self.block(s.body, env_body, lambda e2: [rec], inner)
-        d = [f"def {lname_loop} {params} (items : {lean_type(('list', et))}) {cparams} : PyM {rty} :=".replace("  ", " "),
-             "  match items with", f"  | [] => pure {wrap(tup)}", f"  | {pat} :: rest => do"]
+        lst_name = "items" if "items" not in fixed + carried else "items__"   # the list iterated over (a variable `items` keeps its name)
+        d = [f"def {lname_loop} {params} ({lst_name} : {lean_type(('list', et))}) {cparams} : PyM {rty} :=".replace("  ", " "),
+             f"  match {lst_name} with", f"  | [] => pure {wrap(tup)}", f"  | {pat} :: rest => do"]
         d += self.ind(self.ind(body))
         self.aux.append("\n".join(d))
         call = f"{lname_loop} {fargs} {lst} {cargs}".replace("  ", " ")
@@ -1062,8 +1439,64 @@ class Fn:
         ast.fix_missing_locations(out)
         return out
 
+    def find_dispatch(self, fdef):
+        """the idiom of `Tokenizer.parse`:
+               T = (("chars", self.m1), ("chars", self.m2), …)
+               D = {}
+               for chars, consumer in T:
+                   D.update(dict.fromkeys(chars, consumer))
+           D maps every character of every `chars` to the method of the LAST pair that has it (later pairs overwrite earlier
+           ones): recorded as the list of pairs (PyT.dispatchFind), the three statements are dropped."""
+        body = list(fdef.body)
+        for i in range(len(body) - 2):
+            a, b, c = body[i:i + 3]
+            if not (isinstance(a, ast.Assign) and len(a.targets) == 1 and isinstance(a.targets[0], ast.Name)
+                    and isinstance(a.value, ast.Tuple) and a.value.elts
+                    and all(isinstance(x, ast.Tuple) and len(x.elts) == 2 and isinstance(x.elts[0], ast.Constant)
+                            and isinstance(x.elts[0].value, str) and isinstance(x.elts[1], ast.Attribute)
+                            and isinstance(x.elts[1].value, ast.Name) and x.elts[1].value.id == "self" for x in a.value.elts)):
+                continue
+            tname = a.targets[0].id
+            if not (isinstance(b, ast.Assign) and len(b.targets) == 1 and isinstance(b.targets[0], ast.Name)
+                    and isinstance(b.value, ast.Dict) and not b.value.keys):
+                continue
+            dname = b.targets[0].id
+            want = f"for chars, consumer in {tname}:\n    {dname}.update(dict.fromkeys(chars, consumer))"
+            if not (isinstance(c, ast.For) and ast.unparse(c) == want):
+                continue
+            rest = body[:i] + body[i + 3:]
+            if any(isinstance(n, ast.Name) and n.id == tname for st in rest for n in ast.walk(st)) or \
+                    any(isinstance(n, ast.Name) and n.id == dname and isinstance(n.ctx, ast.Store) for st in rest for n in ast.walk(st)):
+                raise Unsupported("the dispatch table is used outside the idiom")
+            pairs = [(x.elts[0].value, x.elts[1].attr) for x in a.value.elts]
+            for _, m in pairs:
+                if m not in self.registry or self.state_callee(ast.Attribute(value=ast.Name(id="self"), attr=m)) is None:
+                    raise Unsupported(f"dispatched method {m} is not translated")
+            self.dispatch[dname] = pairs
+            fdef = ast.FunctionDef(name=fdef.name, args=fdef.args, body=rest, decorator_list=[], returns=None,
+                                   type_comment=None, lineno=fdef.lineno, col_offset=0)
+            ast.fix_missing_locations(fdef)
+            return fdef
+        return fdef
+
     def translate(self, fdef: ast.FunctionDef) -> str:
+        if self.spec.get("token_class"):
+            token_law(self.spec["module"])
+            for what, law in self.spec.get("live_laws", ()):
+                import importlib
+                if not law(importlib.import_module(self.spec["module"])):
+                    raise Unsupported("the law an extern of this entry rests on no longer holds: " + what)
+            fdef = self.find_dispatch(fdef)
         fdef = self.desugar_state(fdef)
+        if self.spec.get("token_class") and self.spec.get("state_attrs"):
+            # whatever the method changes in `self` must be among the state variables it returns
+            names = set(self.spec["state_attrs"].values())
+            for v in self.assigned(fdef.body):
+                if v in names and v not in self.spec.get("state", ()):
+                    raise Unsupported(f"the method now changes self.{v}, which its entry does not return")
+            if any(isinstance(n, ast.Attribute) and isinstance(n.value, ast.Name) and n.value.id == "self"
+                   and isinstance(n.ctx, ast.Store) for n in ast.walk(fdef)):
+                raise Unsupported("assignment to an attribute of self that is not a state variable of the entry")
         self.msg_only = self.message_only(fdef)
         body_of = self.spec.get("body_of")
         if body_of:
@@ -1105,6 +1538,10 @@ class Fn:
 # ---------------------------------------------------------------------------------------------
 # params: (python name, type[, lean default when the callee is called without it])
 # fuel:   one Lean expression per `while` loop, in source order, over the variables live at loop entry
+# the attributes of a `Tokenizer` instance as variables of the translated methods
+TOK_SA = {"self.formula": "formula", "self.offset": "offset", "self.items": "items", "self.token_stack": "token_stack",
+          "self.token": "pieces"}
+
 TARGETS = [
     {"group": "A1", "module": "numbers_parser.xrefs", "qualname": "xl_col_to_name", "lean": "xl_col_to_name",
      "params": [("col", "int"), ("col_abs", "bool", "false")], "ret": "str",
@@ -1127,7 +1564,17 @@ TARGETS = [
      "assume": "col_parts.match is the hand-derived scanner A1.colPartsMatch"},
     {"group": "A1", "module": "numbers_parser.tokenizer", "qualname": "parse_numbers_range.col_to_index", "lean": "col_to_index",
      "params": [("col_str", "str")], "ret": "int"},
-    # ---- C18: the two token-buffer methods of the Tokenizer, the instance attributes threaded as state -----------------
+    # ---- C18: the Token constructors, then every method of the Tokenizer, the instance attributes threaded as state -------
+    {"group": "Tok", "module": "numbers_parser.tokenizer", "qualname": "Token.make_subexp", "lean": "make_subexp",
+     "params": [("value", "str"), ("func", "bool", "false")], "ret": "tok", "token_class": True, "classmethod": True,
+     "externs": {"re.match": ("Tokenizer.funcSubexpMatch", ["str"], "bool", False, [1], {0: ".+\\(|\\)"})},
+     "assume": "a Token is the structure (value, type, subtype) with the class constants as enum members (distinct strings, plain "
+               "__init__: read from the live class on every run); re.match('.+\\(|\\)', value) is the hand-derived scanner "
+               "Tokenizer.funcSubexpMatch (the pattern literal is compared at translation time)"},
+    {"group": "Tok", "module": "numbers_parser.tokenizer", "qualname": "Token.get_closer", "lean": "get_closer",
+     "params": [("self", "tok")], "ret": "tok", "token_class": True},
+    {"group": "Tok", "module": "numbers_parser.tokenizer", "qualname": "Token.make_separator", "lean": "make_separator",
+     "params": [("value", "str")], "ret": "tok", "token_class": True, "classmethod": True},
     {"group": "Tok", "module": "numbers_parser.tokenizer", "qualname": "Tokenizer.assert_empty_token", "lean": "assert_empty_token",
      "params": [("token", ("list", "str"))], "ret": "none",
      "state_attrs": {"self.token": "token"},
@@ -1138,6 +1585,56 @@ TARGETS = [
      "externs": {"Token.make_operand": ("Tokenizer.makeOperand", ["str"], ("raw", "Tokenizer.Tok"), False)},
      "assume": "self.items / self.token are state variables returned beside the value; Token.make_operand is the model's "
                "makeOperand (NUMBER / RANGE merged; its float() test stays hand-modelled)"},
+    {"group": "Tok", "module": "numbers_parser.tokenizer", "qualname": "Tokenizer.check_scientific_notation",
+     "lean": "check_scientific_notation", "token_class": True,
+     "params": [("formula", "str"), ("offset", "int"), ("pieces", ("list", "str"))], "ret": "bool",
+     "state": ["offset", "pieces"], "state_attrs": TOK_SA,
+     "externs": {"self.SN_RE.match": ("Tokenizer.snMatch", ["str"], "bool", False)},
+     "assume": "self.SN_RE.match(s) as a truth value is the hand-derived scanner Tokenizer.snMatch (pattern text compared on "
+               "every run)"},
+    {"group": "Tok", "module": "numbers_parser.tokenizer", "qualname": "Tokenizer.parse_string", "lean": "parse_string",
+     "token_class": True,
+     "params": [("formula", "str"), ("offset", "int"), ("items", ("list", "tok")), ("pieces", ("list", "str"))], "ret": "int",
+     "state": ["items", "pieces"], "state_attrs": TOK_SA,
+     "tables": {"self.STRING_REGEXES": ("Tokenizer.stringRegexes Gen.whitespace", "str", ("raw", "Text → Option Text"))},
+     "externs": {"regex.match": ("regex", ["str"], ("opt", "match0"), False),
+                 "Token.make_operand": ("Tokenizer.makeOperand", ["str"], "tok", False)},
+     "live_laws": [("STRING_REGEXES has exactly the keys \" and '", lambda m: set(m.Tokenizer.STRING_REGEXES) == {'"', "'"})],
+     "assume": "self.STRING_REGEXES[delim].match(s) is Tokenizer.stringRegexes: the hand-derived scanners dqMatch / sqMatch for the "
+               "two keys (pattern texts compared on every run), KeyError for any other key; match.group(0) is the matched prefix"},
+    {"group": "Tok", "module": "numbers_parser.tokenizer", "qualname": "Tokenizer.parse_error", "lean": "parse_error",
+     "token_class": True,
+     "params": [("formula", "str"), ("offset", "int"), ("items", ("list", "tok")), ("pieces", ("list", "str"))], "ret": "int",
+     "state": ["items"], "state_attrs": TOK_SA,
+     "attrs": {"self.ERROR_CODES": ("Gen.ERROR_CODES", ("list", "str"))},
+     "externs": {"Token.make_operand": ("Tokenizer.makeOperand", ["str"], "tok", False)},
+     "assume": "self.ERROR_CODES is the generated constant Gen.ERROR_CODES"},
+    {"group": "Tok", "module": "numbers_parser.tokenizer", "qualname": "Tokenizer.parse_operator", "lean": "parse_operator",
+     "token_class": True,
+     "params": [("formula", "str"), ("offset", "int"), ("items", ("list", "tok"))], "ret": "int",
+     "state": ["items"], "state_attrs": TOK_SA},
+    {"group": "Tok", "module": "numbers_parser.tokenizer", "qualname": "Tokenizer.parse_opener", "lean": "parse_opener",
+     "token_class": True,
+     "params": [("formula", "str"), ("offset", "int"), ("items", ("list", "tok")), ("token_stack", ("list", "tok")),
+                ("pieces", ("list", "str"))], "ret": "int",
+     "state": ["items", "token_stack", "pieces"], "state_attrs": TOK_SA},
+    {"group": "Tok", "module": "numbers_parser.tokenizer", "qualname": "Tokenizer.parse_closer", "lean": "parse_closer",
+     "token_class": True,
+     "params": [("formula", "str"), ("offset", "int"), ("items", ("list", "tok")), ("token_stack", ("list", "tok"))],
+     "ret": "int", "state": ["items", "token_stack"], "state_attrs": TOK_SA},
+    {"group": "Tok", "module": "numbers_parser.tokenizer", "qualname": "Tokenizer.parse_separator", "lean": "parse_separator",
+     "token_class": True,
+     "params": [("formula", "str"), ("offset", "int"), ("items", ("list", "tok")), ("token_stack", ("list", "tok"))],
+     "ret": "int", "state": ["items"], "state_attrs": TOK_SA},
+    {"group": "Tok", "module": "numbers_parser.tokenizer", "qualname": "Tokenizer.parse", "lean": "parse",
+     "token_class": True,
+     "params": [("formula", "str"), ("offset", "int"), ("items", ("list", "tok")), ("token_stack", ("list", "tok")),
+                ("pieces", ("list", "str"))], "ret": "none",
+     "state": ["offset", "items", "token_stack", "pieces"], "state_attrs": TOK_SA,
+     "attrs": {"self.TOKEN_ENDERS": ("Gen.TOKEN_ENDERS", "str")},
+     "fuel": ["formula.length + 1"],
+     "assume": "the five attributes __init__ sets are the parameters (formula fixed; offset, items, token_stack, token returned); "
+               "self.TOKEN_ENDERS is the generated constant; the while loop runs on fuel len(formula) + 1 (parse_fuel_suffices)"},
     {"group": "Items", "module": "numbers_parser.containers", "qualname": "ItemsList.__getitem__", "lean": "ItemsList.getitem",
      "params": [("items", ("list", "item")), ("key", "key")], "ret": "item",
      "attrs": {"self._items": ("items", ("list", "item")), "self._item_name": ("([] : Text)", "str")},
@@ -1286,7 +1783,7 @@ def find_def(module: str, qualname: str) -> ast.FunctionDef:
     return node
 
 
-GROUP_IMPORTS = {"A1": ["NumbersModel.Model.A1"], "Items": [], "NumFmt": [], "Addr": [], "DateFmt": [], "Duration": [], "Dec128": [], "Merge": [], "Edit": [], "Cache": [], "Tok": ["NumbersModel.Model.Tokenizer"]}
+GROUP_IMPORTS = {"A1": ["NumbersModel.Model.A1"], "Items": [], "NumFmt": [], "Addr": [], "DateFmt": [], "Duration": [], "Dec128": [], "Merge": [], "Edit": [], "Cache": [], "Tok": ["NumbersModel.Model.TokenizerSrc"]}
 
 
 def generate(group: str) -> tuple[str, dict]:
